@@ -14,11 +14,11 @@ DEFAULTS = ['1', "'s'", 'None', '(1, 2)', 'a.b', '-1', '[]', 'x or y', "'\\x1f'"
             # rendered through astor (which wraps long lines)
             '[i * 1000000 for i in range(3) if i % 7 == 3 or i % 11 == 5 or i % 13 == 7 or i > 100000000000]',
             'x < y < 100000000000000000 < 200000000000000000 < 300000000000000000 < 400000000000000000000',
-            "f'x\\n{y}'", "f'{x!r:>10}\\t{{}}'",
+            "f'x\\n{y}'", "f'{x!r:>10}\\t{{}}'", "'\\udc80\\n'", "'can\\'t \\udcff'", "'back\\\\slash \\udc80'",
             # known findings (recognised by their specific witness, see _check)
             "'non\xa0breaking'", '(1,)', '1e999']
 ANNS = ['int', "'str'", 'List[int]', 'None', 'a.B', "Literal['r', 'w']", "t.Literal['r']", "typing_extensions.Literal['x y']",
-        "'None'", "List['a.B']", "'List[int]'", 't.Tuple[()]', "'int | str' & t.Any", "t.Optional['int | None']", "-'x + y'",
+        "'None'", "List['a.B']", "'List[int]'", 't.Tuple[()]', 't.Tuple[*Ts]', 't.Tuple[int, *Ts]', "'t.Tuple[*Ts]'", "'int | str' & t.Any", "t.Optional['int | None']", "-'x + y'",
         "'int if x else str' | None", 't.Dict[str, t.Tuple[int, int, int, int, int, int, int, int, int, int, int, int, int, int, int, int, int, int, int]]']
 
 
